@@ -234,8 +234,27 @@ Theorem C13_source_drain_bounds : forall len cap base s e,
 Proof. exact src_drain_bounds_ok. Qed.
 
 (* the statements around those expressions in insert / remove are the ones the model's steps stand for *)
-Theorem C13_source_frames : forallb snd src_frames_vec = true /\ List.length src_frames_vec = 27%nat.
+Theorem C13_source_frames : forallb snd src_frames_vec = true /\ List.length src_frames_vec = 31%nat.
 Proof. split; [exact src_frames_vec_ok | reflexivity]. Qed.
+
+(* what RawVec hands to the arena when it reallocates or frees: nothing without a buffer, else the
+   layout of the WHOLE buffer (cap elements — not the initialised prefix), which is the block the arena
+   gave it (Word.layout_array of the capacity, the layout VecModel.reserve_internal asks for) *)
+Theorem C13_source_rawvec_current_layout : forall es ea cap, es * cap < W ->
+  call_fn src_fns [("self", VRec [("cap", VN cap)]); ("size_of_T", VN es); ("align_of_T", VN ea)] "current_layout" []
+  = RustSem.Ret (if cap =? 0 then VNone else VSome (vlayout (mkLayout (es * cap) ea))).
+Proof. exact src_current_layout_ok. Qed.
+
+Theorem C13_current_layout_is_the_granted_block : forall es ea cap l,
+  layout_array es ea cap = Some l -> l = mkLayout (es * cap) ea /\ es * cap < W.
+Proof.
+  intros es ea cap l H. unfold layout_array, checked_mul in H.
+  destruct (es * cap <? W) eqn:E; [|discriminate].
+  destruct (layout_ok (es * cap) ea); [|discriminate].
+  split; [congruence | apply N.ltb_lt; exact E].
+Qed.
+Print Assumptions C13_source_rawvec_current_layout.
+Print Assumptions C13_current_layout_is_the_granted_block.
 
 Theorem C13_source_drain_checks : forall len cap base s e a b,
   range_start s = Some a -> range_end e len = Some b ->
